@@ -40,6 +40,29 @@ T = {
  'C20_a': dict(change='utils/utils.go getBits: high part additionally masked with 0x3f', needs='window width 7 and a window starting on the top bit of a byte with bit 6 of the next byte set: digit sum differs from the input', strengthened='no'),
 }
 
+T.update({
+ 'C01_b': dict(change='sm2/sm2.go SignHashed: d+1 padded by len(priv) instead of len((d+1).Bytes())', needs='private key encoding with a leading zero byte: the library rejects its own signature', strengthened='YES: witness construction pinned a random key (never one with a leading zero byte); key strategies added (key left to the solver, keys below 2^247, small keys)'),
+ 'C02_b': dict(change='sm2/sm2.go SignHashed: s == 0 retry test moved before the reduction mod n', needs='k = r*d mod n (2^-256)', strengthened='no (C02 now stops re-proving a claim once a counterexample is in hand: 77 s instead of ~19 min)'),
+ 'C03_b': dict(change='sm2/sm2.go VerifyHashed: t.Mod(n) replaced by a conditional subtraction with > instead of >=', needs='r + s = n exactly: universal forgery', strengthened='no'),
+ 'C04_b': dict(change='sm3/sm3.go Write: all whole blocks of one call handed to a single cf call', needs='one Write / SumSM3 with at least 128 bytes after completing the buffer', strengthened='no'),
+ 'C05_b': dict(change='sm4/sm4.go NewCipher accepts 24- and 32-byte keys', needs='such a key', strengthened='YES: the symbolic run flagged it but the replay did not test key lengths; replay of lengths 0..64 added'),
+ 'C06_b': dict(change='sm4/gcm_amd64.s CalculateSPre: scratch block no longer zeroed before the partial aad block', needs='nonce length not 12 and not a multiple of 16, aad tail shorter than the nonce tail', strengthened='no'),
+ 'C07_b': dict(change='sm4/gcm_amd64.s constantTimeCompare: fold of the top accumulator byte dropped', needs='forged tag differing only in byte 7 (or 15)', strengthened='no'),
+ 'C08_b': dict(change='sm2/internal/sm2_curve.go ScalarMult: leading zero bytes of the scalar skip the loop body', needs='secret scalar with a zero most significant byte', strengthened='no (after the first-round tightening)'),
+ 'C09_b': dict(change='sm4/gcm_amd64.s gHashBlocksLoopBy1: VPTESTMQ/KORTESTW/JEQ skip of mul+reduce when accumulator xor block is zero', needs='all-zero first ciphertext or aad block', strengthened='YES (engine): VPTESTM/KORTEST were unsupported and a data-dependent branch outside openAsm aborted the run; both added, branches are recorded and execution continues'),
+ 'C10_b': dict(change='sm4/gcm_amd64.s constantTimeCompare tail loop XORs into the received tag in memory', needs='tag size 12..15', strengthened='no'),
+ 'C11_b': dict(change='sm4/sm4_gcm_amd64.go Open: short-ciphertext guard compares with gcmMinimumTagSize instead of g.tagSize', needs='12 <= len(ciphertext) < tagSize, non-nil dst: read in front of the ciphertext', strengthened='YES: probes for every length below the tag with nil and non-nil dst; replay with a PROT_NONE page in front of the ciphertext'),
+ 'C12_b': dict(change='sm2/sm2.go GenerateKey: candidate test without the zero test', needs='all-zero 32-byte candidate from the reader', strengthened='no'),
+ 'C13_b': dict(change='sm2/sm2.go ZA: ENTL high byte computed from the byte length', needs='ids of 32 bytes or more', strengthened='no'),
+ 'C14_b': dict(change='sm2/internal/sm2_curve.go ScalarMult: scalars shorter than 32 bytes copied left-aligned into a 32-byte array', needs='any scalar shorter than 32 bytes', strengthened='YES: symbolic length sweep flagged it, replay rows for short scalars added'),
+ 'C15_b': dict(change='sm2/internal/sm2_point.go SetBytes assigns the receiver before the on-curve test', needs='off-curve encoding decoded into a live receiver', strengthened='YES: symbolic run flagged it, replay "failed decode leaves the receiver untouched" added'),
+ 'C16_b': dict(change='sm2/internal/fiat/fiat_sm2_64.go sm2ToMontgomery: carry of the first reduction round replaced by the constant 1', needs='decoded value whose low 64-bit limb is 0', strengthened='no (after the first-round work on model-derived vectors)'),
+ 'C17_b': dict(change='sm2/internal/sm2_point.go GetAffineX_Unsafe keeps z^-1 in a package-level big.Int', needs='two goroutines signing/verifying at once', strengthened='YES: C17 covered SM2 only through contracts; it now executes the real SM2 layers concretely, logs writes to math/big receivers and replays with go test -race in package sm2'),
+ 'C18_b': dict(change='sm4/asm_arm64.s: one byte of the arm64 S-box copy (0xdd -> 0xdb at index 0xc5)', needs='arm64 only; S-box input 0xc5', strengthened='no'),
+ 'C19_b': dict(change='sm2/sm2.go GenerateKey: rand.Read instead of io.ReadFull', needs='a reader that returns short reads without error', strengthened='no'),
+ 'C20_b': dict(change='utils/utils.go ConstantTimeCmp: diff |= d became diff ^= d', needs='a > b with per-byte differences that cancel under xor', strengthened='no'),
+})
+
 for name, t in sorted(T.items()):
     d = os.path.join(S, name)
     if not os.path.isdir(d):
